@@ -371,6 +371,17 @@ def evaluate(case, res):
                              for x in ch)
                 idle = (_sec(end) - newest).total_seconds()
                 if idle > delay + 120 + 2 * 120 + 10:
+                    # the check only looks at the first <batch size> RUNNING
+                    # tasks of the execution (no order, no rotation): open
+                    # finding F39
+                    bs = (c.get('options') or {}).get(
+                        'engine.execution_integrity_check_batch_size', 5)
+                    n_run = sum(1 for x in snap['task'].values()
+                                if x['workflow_execution_id'] ==
+                                t['workflow_execution_id'] and
+                                x['state'] == 'RUNNING')
+                    if bs and n_run > bs:
+                        sig = (sig + ' integrity_batch_starved').strip()
                     out.append((
                         'C20.stuck_not_fixed',
                         'task %s is RUNNING, all its %d children finished '
